@@ -4,7 +4,7 @@ SPEC = {
     "harness": {
         "pkg": "c16",
         "shims": {"c16tunnel": "internal/protocol/session/tunnel"},
-        "runs": [{"args": [], "corpus": "", "timeout": 900}],
+        "runs": [{"args": [], "corpus": "", "timeout": 7200}],
     },
     # which closer wins (its reason, and with it whether the peer is notified) depends on the schedule;
     # holds checks that the pair is consistent with one of the callers
